@@ -1,7 +1,7 @@
 SPECIFICATION Spec
-CONSTANTS MaxN = 4 MaxIter = 3 StrictA = FALSE
+CONSTANTS MaxN = 3 MaxIter = 3 StrictA = FALSE
   AsIs_UnconditionalUnshuffle = TRUE Mut_NoReshuffle = FALSE Mut_FeedUnlabeled = FALSE Mut_InverseMixup = FALSE
-CONSTANT Thresholds <- ThrMid
+CONSTANT Thresholds <- ThrSmall
 CONSTANT ShuffleVals <- BothB
 INVARIANT AbortLegit
 CHECK_DEADLOCK FALSE
